@@ -170,6 +170,20 @@ Theorem conc_group_linearisable_refuted :
 Proof. exact not_linearisable. Qed.
 Print Assumptions conc_group_linearisable_refuted.
 
+(* (4) refinement of the sequential model (builder lag's Storage.step, the model of C01/C02/C09/C10): a request whose
+   steps nobody interrupts does exactly what Storage.step does, for every Go map iteration order [prio]; listings are
+   compared as sets.  (wf_state: group maps have no duplicate keys, preserved by every Storage operation.) *)
+Theorem run_alone_refines :
+  forall cf now prio st r,
+    wf_state st ->
+    exists fuel0, forall fuel, (fuel0 <= fuel)%nat ->
+      match Storage.step cf now st r with
+      | Done st' rep => exists rep', run_alone cf now true prio fuel st r = Some (st', rep') /\ reply_equiv rep rep'
+      | Crashed => run_alone cf now true prio fuel st r = None
+      end.
+Proof. exact run_alone_refines_proof. Qed.
+Print Assumptions run_alone_refines.
+
 (* ---- replies ---- *)
 (* every fetchConsumer reply delivered in any schedule: within a partition with broker data and a last commit,
    CurrentLag = max 0 (last BrokerOffsets - last commit offset) *)
@@ -208,6 +222,12 @@ Example sched_run_nontrivial :
   unfinished (fst r) = false /\ length (snd r) = 14%nat /\
   map (fun w => length (w_out w)) (g_ws (fst r)) = [0; 1; 0]%nat.
 Proof. vm_compute. repeat split; reflexivity. Qed.
+
+Example wf_state_init : forall clusters, wf_state (init_state clusters).
+Proof.
+  intros clusters c cl H. unfold init_state in H. induction clusters as [|k r IH]; cbn in H; [discriminate|].
+  destruct (k =? c)%Z; [inversion H; constructor | exact (IH H)].
+Qed.
 
 Example table_nonempty :
   Nat.ltb 150 (length table) = true /\ Nat.ltb 15 (length acquires) = true /\ length routes = 12%nat.
